@@ -685,7 +685,7 @@ def run(ctx):
             jobs = base + rng.sample(rest, min(len(rest), 400))
         cap = 400 if ctx.thorough else 40
         n_complete = 0
-        budget = 600 if ctx.thorough else 42
+        budget = 600 if ctx.thorough else 36
         if ctx.broken:
             # a theorem / the generated tie no longer checks: this run is the search for a failing input
             budget = 600 if ctx.thorough else 75
@@ -755,6 +755,7 @@ def run(ctx):
                 rig.impl = []
                 rig.conclude([seq_world])
         deadline_scenarios(ctx, seq_world, table)
+        parked_reader_scenarios(ctx, seq_world, table)
         # peer messages that must not change readability (requests, window adjusts, request replies), from every kind
         # of quiescent state after fileno(); each is followed by the oracle
         for setup in (["fileno"], ["fileno", "feed1"], ["fileno", "feed1", "drain1"], ["fileno", "feed2", "drain2"],
@@ -904,6 +905,25 @@ def read_loop_facts(bpmod):
                 bad.append("read line %d: return inside the wait loop" % node.lineno)
             elif isinstance(node, ast.Delete) and "_buffer" in ast.unparse(node):
                 bad.append("read line %d: bytes removed inside the wait loop" % node.lineno)
+    # Condition.wait() gives the buffer lock up: nothing read from the object's state before the wait may be kept in a
+    # local across it (an event attached by fileno() meanwhile, a close, new data would be missed)
+    for f in cls.body:
+        if not isinstance(f, ast.FunctionDef):
+            continue
+        waits = any(isinstance(n, ast.Call) and ast.unparse(n.func) == "self._cv.wait" for n in ast.walk(f))
+        if not waits:
+            continue
+        for node in ast.walk(f):
+            val = None
+            if isinstance(node, (ast.Assign, ast.AnnAssign, ast.AugAssign, ast.NamedExpr)):
+                val = node.value
+            if val is None:
+                continue
+            for sub in ast.walk(val):
+                if (isinstance(sub, ast.Attribute) and isinstance(sub.value, ast.Name) and sub.value.id == "self"
+                        and sub.attr in ("_event", "_closed", "_buffer")):
+                    bad.append("%s line %d: local bound to self.%s in a method that waits on the condition" % (
+                        f.name, node.lineno, sub.attr))
     return bad
 
 
@@ -960,6 +980,68 @@ def deadline_scenarios(ctx, seq_world, table):
                             if t.state != "idle":
                                 seq_world.close()
                                 raise InfraError("C24: deadline scenario left a thread running")
+                            rig.impl = []
+                            rig.conclude([seq_world])
+    finally:
+        bpmod.time = real_time
+
+
+def parked_reader_scenarios(ctx, seq_world, table):
+    """fileno() is called for the first time while a reader is already parked in recv()/recv_stderr() on an empty
+    buffer; then a packet arrives on that stream and the parked reader consumes it (entirely / partly); then the readiness
+    oracle.  Also with data on the other stream and with EOF instead of data.  Oracle only."""
+    import time as _time
+
+    bpmod = seq_world.bpmod
+    sched = seq_world.sched
+    real_time = bpmod.time
+    bpmod.time = lib_coop.FakeTime(_time)
+    try:
+        for i in (0, 1):
+            for timeout in (None, 5.0):
+                for nbytes, chunk in ((10, b"xy"), (1, b"xy"), (2, b"xy")):
+                    for other, then_eof in ((False, False), (True, False), (False, True)):
+                        rig = Rig(seq_world, table)
+                        b = rig.bufs[i]
+                        t = seq_world.threads[1]
+                        t.clock = 0.0
+                        sched.begin(t, lambda: b.read(nbytes, timeout))
+                        case = {"parked-before-fileno": True, "buffer": i + 1, "read": [nbytes, timeout],
+                                "feed": chunk.hex(), "data-on-other-stream": other, "eof-instead-of-feed": then_eof}
+                        ctx.case(("parked-fileno", i, timeout, nbytes, other, then_eof), True)
+                        ctx.dist("parked-reader-then-fileno")
+                        try:
+                            if t.state != "cv":
+                                raise InfraError("C24: read on an empty buffer did not wait (state %s)" % t.state)
+                            rig.op_fn("fileno")()           # first fileno(): installs the events while the reader waits
+                            if other:
+                                rig.bufs[1 - i].feed(b"o")
+                                rig.bufs[1 - i].read(10, 0.0)
+                            if then_eof:
+                                rig.op_fn("eof")()
+                            else:
+                                b.feed(chunk)
+                            sched.wake(t, 1.0)
+                            n = 0
+                            while t.state != "idle" and sched.enabled(t):
+                                sched.step(t)
+                                n += 1
+                                if n > 200:
+                                    raise InfraError("C24: reader does not finish")
+                            if t.state != "idle":
+                                ctx.fail("parked-reader-stuck", case, rig.state_S())
+                            else:
+                                kind, val = t.result
+                                if kind == "exc" and not isinstance(val, bpmod.PipeTimeout):
+                                    from pv.core import exc_site
+                                    ctx.fail("unexpected-exception:" + exc_site(val), case, repr(val))
+                                bad = rig.oracle()
+                                if bad:
+                                    ctx.fail(bad[0] + ":reader-parked-before-fileno", case, bad[1])
+                        finally:
+                            if t.state != "idle":
+                                seq_world.close()
+                                raise InfraError("C24: parked-reader scenario left a thread running")
                             rig.impl = []
                             rig.conclude([seq_world])
     finally:
